@@ -12,8 +12,17 @@ pub mod tcbspec {
             PROTO_TABLE().all_ids_between(1, 8) {}
     /// `smack_state` is a (row, pending) pair of the compiled PROTO_SMACK automaton
     pub open spec fn smack_state_ok(s: usize) -> bool { PROTO_TABLE().state_ok(s) }
-    /// inner parser states are within their state sets (defined with each parser)
-    pub uninterp spec fn http_state_wf(h: crate::proto::http::ProtocolState) -> bool;
+    /// the value of the lazily initialised constant HTTP_SMACK (rule R3); ground facts checked on the real table:
+    /// wf(), every match row reports exactly one id, ids within 0..=4, BASE and UNANCHORED are resting states
+    pub uninterp spec fn HTTP_TABLE() -> crate::smack::Smack;
+    #[verifier::external_body]
+    pub broadcast proof fn axiom_http_table()
+        ensures #[trigger] HTTP_TABLE().wf(), HTTP_TABLE().resting(0), HTTP_TABLE().resting(1), HTTP_TABLE().all_ids_between(0, 4),
+            forall|r: int| 0 <= r < HTTP_TABLE().rows() ==> (#[trigger] HTTP_TABLE().m_match@[r]).m_count <= 1 {}
+    /// inner parser states are within their state sets
+    pub open spec fn http_state_wf(h: crate::proto::http::ProtocolState) -> bool {
+        HTTP_TABLE().state_ok(h.smack_state) && (h.smack_state >> 24) == 0
+    }
     pub uninterp spec fn rpc_state_wf(r: crate::proto::rpc::ProtocolState) -> bool;
     pub open spec fn tcb_wf(t: TCPControlBlock) -> bool {
         smack_state_ok(t.smack_state)
